@@ -127,23 +127,61 @@ theorem horizontal_band (c : Config α) (e : Env α) (d : Draws α) (x y z : α)
     split_ifs <;> simp only [] <;> unfold InBand fmin <;> split_ifs <;>
       constructor <;> first | exact hdep _ _ | exact hz.1 | exact le_refl _ | (apply le_of_not_gt; assumption)
 
-/-- FULL STATEMENT for chemicals `update_ibm`: the new depth is in the band of the new position, with
-or without horizontal diffusion, for every draw whose single vertical step is smaller than the
-local depth. -/
+/-- the clamp that follows the collision handler puts the (possibly re-seeded) particle into the band of
+its new position, whatever that position is -/
+theorem collision_clamp_band (H z : α) (hH : 0 ≤ H) (hz : 0 ≤ z) : InBand H (fmin z H) := by
+  unfold InBand fmin
+  split_ifs with h
+  · exact ⟨hH, le_refl H⟩
+  · exact ⟨hz, not_lt.mp h⟩
+
+/-- FULL STATEMENT for chemicals `update_ibm`: the new depth is in the band of the new position — with or
+without a collision handler that re-seeds the particle horizontally, with or without horizontal diffusion —
+for every draw whose single vertical step is smaller than the local depth.  The particle only has to start in
+the band *of its own position* (`hz`); the handler may move it anywhere (`d.stuck`, `d.repX`, `d.repY`
+arbitrary) provided the clamp follows it (`hcl`: the code since the `fix:` commit 28c3e2b; without a handler
+`d.stuck = false`). -/
 theorem update_band (c : Config α) (e : Env α) (d : Draws α) (p : Particle α)
     (hdep : ∀ x y, 0 ≤ e.depth x y)
-    (hz : ∀ x y, InBand (e.depth x y) p.z)
+    (hz : InBand (e.depth p.x p.y) p.z)
+    (hcl : c.collisionClamp = true ∨ d.stuck = false)
     (hadv : ∀ x y z, |c.dt * e.wvel x y z| ≤ e.depth x y)
     (hconst : ∀ D u x y, |sqrt (2.0 * D) * uniformDW u c.dt| ≤ e.depth x y)
     (hlab : ∀ x y dz vmax ddt u zz,
       |sqrt (2.0 * fmin (e.vdiff x y (zCoarse dz zz)) vmax) * uniformDW u ddt| ≤ e.depth x y) :
     InBand (e.depth (update c e d p).x (update c e d p).y) (update c e d p).z := by
-  have key : ∀ x y, InBand (e.depth x y) (vertical c e d x y p.z) := fun x y =>
-    vertical_band c e d x y p.z (hz x y) (fun _ => hadv x y _) (fun D _ u => hconst D u x y)
+  have key : ∀ x y z, InBand (e.depth x y) z → InBand (e.depth x y) (vertical c e d x y z) := fun x y z hzz =>
+    vertical_band c e d x y z hzz (fun _ => hadv x y _) (fun D _ u => hconst D u x y)
       (fun _ dz vmax _ ddt u zz => hlab x y dz vmax ddt u zz)
+  -- the depth handed to the vertical part is in the band of the position after the handler
+  have h0 : InBand
+      (e.depth (if d.stuck then reseed p.x d.repX else p.x) (if d.stuck then reseed p.y d.repY else p.y))
+      (if c.collisionClamp then fmin p.z
+        (e.depth (if d.stuck then reseed p.x d.repX else p.x) (if d.stuck then reseed p.y d.repY else p.y))
+       else p.z) := by
+    by_cases hc : c.collisionClamp = true
+    · simp only [hc, if_true]
+      exact collision_clamp_band _ _ (hdep _ _) hz.1
+    · have hs : d.stuck = false := by
+        rcases hcl with h | h
+        · exact absurd h hc
+        · exact h
+      simp only [hc, hs, Bool.false_eq_true, if_false]
+      exact hz
   unfold update
   simp only []
-  cases c.lifespan <;> exact horizontal_band c e d _ _ _ _ hdep (key _ _)
+  cases c.lifespan <;> exact horizontal_band c e d _ _ _ _ hdep (key _ _ _ h0)
+
+/-- why the clamp after the collision handler is needed (the behaviour before the `fix:` commit 28c3e2b):
+without the clamp, vertical advection, mixing and horizontal diffusion the update keeps the depth while the
+handler moves the particle horizontally — to shallower water if the bed rises there
+(`horzdiff_without_clamp_fails` below gives such a bed and depth). -/
+theorem reposition_without_clamp_keeps_depth (c : Config α) (e : Env α) (d : Draws α) (p : Particle α)
+    (hc : c.collisionClamp = false) (hv : c.vertadv = false) (hm : c.mix = .none) (hh : c.horz = none) :
+    (update c e d p).z = p.z ∧ (update c e d p).x = (if d.stuck then reseed p.x d.repX else p.x) := by
+  unfold update vertical horizontal
+  simp only [hc, hv, hm, hh, Bool.false_eq_true, if_false]
+  cases c.lifespan <;> exact ⟨rfl, rfl⟩
 
 /-- why the clamp is needed (the behaviour before the `fix:` commit): a horizontal move to shallower
 water *after* the last reflection leaves the particle below the new bed.  Witness over ℚ: depth
@@ -309,6 +347,37 @@ theorem clipDepth_band (lo hi z : α) (h : lo ≤ hi) :
     lo ≤ clipDepth lo hi z ∧ clipDepth lo hi z ≤ hi := by
   unfold clipDepth fmax fmin
   split_ifs <;> constructor <;> linarith
+
+/-- the end of the larvae / saithe vertical movement keeps **every** particle at or below the surface and
+larvae in their band: larvae-module particles and saithe larvae end in `[min_depth, max_depth]`, saithe
+eggs (which the band does not bind) at a depth `≥ 0` (since the `fix:` commit 8460773; before it a buoyant
+egg near the surface ended at a negative depth) — whatever the raw displacement, i.e. for every draw and
+forcing value -/
+theorem larva_final_band (c : Bio.LarvaCfg α) (isEgg : Bool) (z : α) (h : c.minDepth ≤ c.maxDepth)
+    (h0 : 0 ≤ c.minDepth) :
+    0 ≤ Bio.larvaFinalZ c isEgg z ∧
+    ((c.clipEggs = true ∨ isEgg = false) →
+      c.minDepth ≤ Bio.larvaFinalZ c isEgg z ∧ Bio.larvaFinalZ c isEgg z ≤ c.maxDepth) := by
+  unfold Bio.larvaFinalZ
+  split_ifs with hc
+  · refine ⟨?_, fun hh => ?_⟩
+    · unfold fmax; lits
+      split_ifs with hlt
+      · exact le_refl _
+      · exact not_lt.mp hlt
+    · exfalso
+      simp only [Bool.and_eq_true, Bool.not_eq_true'] at hc
+      rcases hh with hh | hh
+      · rw [hc.2] at hh; exact Bool.noConfusion hh
+      · rw [hc.1] at hh; exact Bool.noConfusion hh
+  · have hb := clipDepth_band c.minDepth c.maxDepth z h
+    exact ⟨le_trans h0 hb.1, fun _ => hb⟩
+
+/-- … and the depth after `update_ibm` is such an end value -/
+theorem larva_update_z_final [HasNarrow α] [HasSqrt α] [HasExp α] [HasRpow α] [HasLog α] (c : Bio.LarvaCfg α)
+    (temp salt buoy l0 : α) (xi : Option α) (p : Bio.Larva α) :
+    ∃ zraw, (Bio.larvaUpdate c temp salt buoy l0 xi p).z = Bio.larvaFinalZ c (decide (p.age ≤ c.hatchDay)) zraw :=
+  ⟨_, rfl⟩
 
 /-- saithe larvae: `np.clip(Z, min_depth, max_depth)` -/
 theorem npClip_band (lo hi z : α) (h : lo ≤ hi) : lo ≤ npClip lo hi z ∧ npClip lo hi z ≤ hi := by
